@@ -1,0 +1,202 @@
+//go:build verif
+
+// Contracts for the verification machinery in /verif (govc). This file is only compiled with -tags verif;
+// it adds no behaviour to the package. Syntax: see /verif/DESIGN.md, Appendix A.
+package multiapp
+
+// verifAssume / verifAssert are the harness primitives: govc treats them as assumption and obligation;
+// natively (replays) a violated assertion panics with its label.
+func verifAssume(c bool) {
+	if !c {
+		panic("verifAssume: precondition of the harness not met")
+	}
+}
+
+func verifAssert(label string, c bool) {
+	if !c {
+		panic("verifAssert violated: " + label)
+	}
+}
+
+// ---- C17 / C14: chunk arithmetic of MultiFileAppendable (multi_app.go) --------------------------------------------
+
+// spec_mfWF: representation invariant of MultiFileAppendable. Established by OpenWithHooks (checked there: posts
+// wffs / wfapp / wfcache / wfbuf), required and preserved by every method below. The contracts spell the conjunction
+// out instead of calling spec_mfWF (a spec function over a pointer is an uninterpreted function of the whole heap:
+// every query of a function with calls timed out); this function is the same text, kept for readers.
+// hooks.OpenInitialAppendable returning appID >= 0 (directory holds only chunk files named by non-negative ids) is an
+// ASSUMED interface contract.
+func spec_mfWF(mf *MultiFileAppendable) bool {
+	return mf.fileSize > 0 && mf.currAppID >= 0 && mf.currApp != nil && mf.hooks != nil &&
+		mf.appendables.cache != nil && (mf.readOnly || len(mf.writeBuffer) > 0)
+}
+
+//@ iface MultiFileAppendableHooks.OpenInitialAppendable
+//@   ensures app: err == nil ==> app != nil && appID >= 0
+
+//@ iface MultiFileAppendableHooks.OpenAppendable
+//@   ensures app: r1 == nil ==> r0 != nil
+
+//@ func (*Options).Validate
+//@   ensures ok: r0 == nil ==> opts != nil && opts.fileSize > 0 && opts.maxOpenedFiles > 0 && opts.readBufferSize > 0
+//@   &&      (opts.readOnly || opts.writeBufferSize > 0)
+//@   assigns nothing
+
+//@ func (*Options).GetWriteBufferSize
+//@   ensures def: r0 == opts.writeBufferSize
+//@   assigns nothing
+
+// `wffs` FAILS on the unchanged tree (genuine defect, see notes): fileSize is read back from the chunk's metadata
+// (`fileSize, _ := ...GetInt(metaFileSize)`) and never validated.
+//@ func OpenWithHooks
+//@   requires hooks != nil
+//@   ensures nonnil: r1 == nil ==> r0 != nil
+//@   ensures wffs: r1 == nil ==> r0.fileSize > 0
+//@   ensures wfapp: r1 == nil ==> r0.currAppID >= 0 && r0.currApp != nil && r0.hooks != nil
+//@   ensures wfcache: r1 == nil ==> r0.appendables.cache != nil
+//@   ensures wfbuf: r1 == nil ==> r0.readOnly || len(r0.writeBuffer) > 0
+
+//@ func appendableID
+//@   requires fileSize > 0
+//@   ensures def: r0 == off / int64(fileSize)
+//@   ensures nonneg: off >= 0 ==> 0 <= r0 && r0 <= off
+//@   pure
+//@   assigns nothing
+
+// the cache only ever holds *refCountedApp values put there by appendableCache.Put/Replace (not verified: assumption)
+//@ func appendableCache.Pop
+//@   ensures nonnil: r1 == nil ==> r0 != nil
+//@   assigns internal
+
+//@ func appendableCache.Get
+//@   ensures nonnil: r1 == nil ==> r0 != nil
+//@   assigns internal
+
+//@ func appendableCache.Put
+//@   assigns internal
+
+//@ func (*MultiFileAppendable).DiscardUpto
+//@   requires mf.fileSize > 0 && mf.currAppID >= 0 && mf.currApp != nil && mf.hooks != nil && mf.appendables.cache != nil && (mf.readOnly || len(mf.writeBuffer) > 0)
+//@   ensures wf: mf.fileSize > 0 && mf.currAppID >= 0 && mf.currApp != nil && mf.hooks != nil && mf.appendables.cache != nil && (mf.readOnly || len(mf.writeBuffer) > 0)
+//@   ensures same: mf.fileSize == old(mf.fileSize) && mf.currAppID == old(mf.currAppID) && mf.currApp == old(mf.currApp)
+//@   loop 1 invariant fs: mf.fileSize == old(mf.fileSize) && mf.currAppID == old(mf.currAppID) && mf.currApp != nil && mf.appendables.cache != nil
+//@   loop 1 invariant range: 0 <= i && (i == 0 || i <= appID)
+//@   loop 1 invariant removed: i <= mf.currAppID
+//@   loop 1 decreases appID - i
+
+//@ func (*MultiFileAppendable).Size
+//@   requires mf.fileSize > 0 && mf.currAppID >= 0 && mf.currApp != nil && mf.hooks != nil && mf.appendables.cache != nil && (mf.readOnly || len(mf.writeBuffer) > 0)
+//@   ensures wf: mf.fileSize > 0 && mf.currAppID >= 0 && mf.currApp != nil && mf.hooks != nil && mf.appendables.cache != nil && (mf.readOnly || len(mf.writeBuffer) > 0)
+//@   ensures same: mf.fileSize == old(mf.fileSize) && mf.currAppID == old(mf.currAppID) && mf.currApp == old(mf.currApp)
+
+//@ func (*MultiFileAppendable).Offset
+//@   requires mf.fileSize > 0 && mf.currAppID >= 0 && mf.currApp != nil && mf.hooks != nil && mf.appendables.cache != nil && (mf.readOnly || len(mf.writeBuffer) > 0)
+//@   ensures wf: mf.fileSize > 0 && mf.currAppID >= 0 && mf.currApp != nil && mf.hooks != nil && mf.appendables.cache != nil && (mf.readOnly || len(mf.writeBuffer) > 0)
+//@   ensures same: mf.fileSize == old(mf.fileSize) && mf.currAppID == old(mf.currAppID) && mf.currApp == old(mf.currApp)
+
+//@ func (*MultiFileAppendable).Flush
+//@   requires mf.fileSize > 0 && mf.currAppID >= 0 && mf.currApp != nil && mf.hooks != nil && mf.appendables.cache != nil && (mf.readOnly || len(mf.writeBuffer) > 0)
+//@   ensures wf: mf.fileSize > 0 && mf.currAppID >= 0 && mf.currApp != nil && mf.hooks != nil && mf.appendables.cache != nil && (mf.readOnly || len(mf.writeBuffer) > 0)
+//@   ensures same: mf.fileSize == old(mf.fileSize) && mf.currAppID == old(mf.currAppID) && mf.currApp == old(mf.currApp)
+
+//@ func (*MultiFileAppendable).Sync
+//@   requires mf.fileSize > 0 && mf.currAppID >= 0 && mf.currApp != nil && mf.hooks != nil && mf.appendables.cache != nil && (mf.readOnly || len(mf.writeBuffer) > 0)
+//@   ensures wf: mf.fileSize > 0 && mf.currAppID >= 0 && mf.currApp != nil && mf.hooks != nil && mf.appendables.cache != nil && (mf.readOnly || len(mf.writeBuffer) > 0)
+//@   ensures same: mf.fileSize == old(mf.fileSize) && mf.currAppID == old(mf.currAppID) && mf.currApp == old(mf.currApp)
+
+// openAppendable only builds options and calls the hook (havoc): frame assumed, not checked.
+//@ func (*MultiFileAppendable).openAppendable
+//@   requires mf.fileSize > 0 && mf.currAppID >= 0 && mf.currApp != nil && mf.hooks != nil && mf.appendables.cache != nil && (mf.readOnly || len(mf.writeBuffer) > 0)
+//@   ensures app: r1 == nil ==> r0 != nil
+//@   assigns nothing
+
+// SetOffset(off): on success the active chunk is off / fileSize (or nothing moved: off == current offset); the inner
+// offset off % fileSize is what is passed to the chunk (verif_route: both recompose off).
+// `neg`: a negative offset must be rejected without touching the chunk selection (C17: SetOffset fails leaving the
+// log unchanged).
+//@ func (*MultiFileAppendable).SetOffset
+//@   requires mf.fileSize > 0 && mf.currAppID >= 0 && mf.currApp != nil && mf.hooks != nil && mf.appendables.cache != nil && (mf.readOnly || len(mf.writeBuffer) > 0)
+//@   ensures wf: off >= 0 ==> mf.fileSize > 0 && mf.currAppID >= 0 && mf.currApp != nil && mf.hooks != nil && mf.appendables.cache != nil && (mf.readOnly || len(mf.writeBuffer) > 0)
+//@   ensures fs: mf.fileSize == old(mf.fileSize)
+//@   ensures chunk: r0 == nil ==> mf.currAppID == old(mf.currAppID) || mf.currAppID == appendableID(off, mf.fileSize)
+//@   ensures neg: off < 0 ==> mf.currAppID == old(mf.currAppID) && mf.currApp == old(mf.currApp)
+//@   loop 1 invariant keep: mf.fileSize == old(mf.fileSize) && mf.currAppID == old(mf.currAppID) && mf.currApp == old(mf.currApp) && mf.hooks == old(mf.hooks) && mf.appendables.cache == old(mf.appendables.cache) && mf.readOnly == old(mf.readOnly) && len(mf.writeBuffer) == old(len(mf.writeBuffer))
+//@   loop 1 invariant range: appID <= id
+//@   loop 1 decreases mf.currAppID - id
+
+// appendableFor(off) returns the handle of chunk appendableID(off, fileSize) (the active chunk when that id is
+// currAppID). Body: cache / singleflight / prefetch goroutines, outside C17 (handle eviction); only its frame on the
+// chunk arithmetic fields is stated and checked.
+//@ func (*MultiFileAppendable).appendableFor
+//@   requires mf.fileSize > 0 && mf.currAppID >= 0 && mf.currApp != nil && mf.hooks != nil && mf.appendables.cache != nil && (mf.readOnly || len(mf.writeBuffer) > 0)
+//@   ensures app: r1 == nil ==> r0 != nil
+//@   ensures same: mf.fileSize == old(mf.fileSize) && mf.currAppID == old(mf.currAppID) && mf.currApp == old(mf.currApp) && mf.hooks == old(mf.hooks) && mf.appendables.cache == old(mf.appendables.cache) && mf.readOnly == old(mf.readOnly) && len(mf.writeBuffer) == old(len(mf.writeBuffer))
+
+//@ func (*refCountedApp).Release
+//@   assigns internal
+
+// ReadAt: every round reads at global offset off+r from chunk appendableID(off+r, fileSize) at inner offset
+// (off+r) % fileSize (verif_route); r never exceeds len(bs); the loop terminates because a chunk read that returns no
+// error is complete (iface Appendable.ReadAt `full`) and an EOF round without progress returns.
+//@ func (*MultiFileAppendable).ReadAt
+//@   requires mf.fileSize > 0 && mf.currAppID >= 0 && mf.currApp != nil && mf.hooks != nil && mf.appendables.cache != nil && (mf.readOnly || len(mf.writeBuffer) > 0)
+//@   requires sep: !sameobj(bs, mf)
+//@   ensures count: 0 <= r0 && r0 <= len(bs)
+//@   ensures full: r1 == nil ==> r0 == len(bs)
+//@   ensures wf: mf.fileSize > 0 && mf.currAppID >= 0 && mf.currApp != nil && mf.hooks != nil && mf.appendables.cache != nil && (mf.readOnly || len(mf.writeBuffer) > 0)
+//@   loop 1 invariant range: 0 <= r && r <= len(bs)
+//@   loop 1 invariant wf: mf.fileSize > 0 && mf.currAppID >= 0 && mf.currApp != nil && mf.hooks != nil && mf.appendables.cache != nil && (mf.readOnly || len(mf.writeBuffer) > 0)
+//@   loop 1 decreases len(bs) - r
+
+// Append: the payload is cut at multiples of fileSize: a round hands at most fileSize - Offset() bytes to the active
+// chunk (uncompressed), rotating to chunk currAppID+1 at inner offset 0 when the active chunk is full.
+// `phys`: physical assumption (the chunk counter is far from wrapping; 2^62 chunk files cannot exist). With it the
+// loop invariant `rot` (at most one rotation per appended byte) shows that mf.currAppID++ never overflows.
+//@ func (*MultiFileAppendable).Append
+//@   requires mf.fileSize > 0 && mf.currAppID >= 0 && mf.currApp != nil && mf.hooks != nil && mf.appendables.cache != nil && (mf.readOnly || len(mf.writeBuffer) > 0)
+//@   requires phys: mf.currAppID < 1<<62
+//@   ensures wf: mf.fileSize > 0 && mf.currAppID >= 0 && mf.currApp != nil && mf.hooks != nil && mf.appendables.cache != nil && (mf.readOnly || len(mf.writeBuffer) > 0)
+//@   ensures fs: mf.fileSize == old(mf.fileSize)
+//@   ensures count: 0 <= n && n <= len(bs) && (err == nil ==> n == len(bs))
+//@   ensures fwd: mf.currAppID >= old(mf.currAppID)
+//@   loop 1 invariant range: 0 <= n && n <= len(bs)
+//@   loop 1 invariant rot: old(mf.currAppID) <= mf.currAppID && mf.currAppID <= old(mf.currAppID) + int64(n)
+//@   loop 1 invariant wf: mf.fileSize > 0 && mf.currAppID >= 0 && mf.currApp != nil && mf.hooks != nil && mf.appendables.cache != nil && (mf.readOnly || len(mf.writeBuffer) > 0)
+//@   loop 1 invariant fs: mf.fileSize == old(mf.fileSize) && mf.readOnly == old(mf.readOnly)
+//@   loop 1 decreases len(bs) - n
+
+// Arithmetic lemmas about chunk ids (loop-free harnesses over unconstrained parameters: complete proofs).
+// NOT machine-checked (64-bit bvmul/bvsdiv, all solvers time out even for 16-bit operands > 60 s): the two facts that
+// turn the linear guards of the contracts into the statements of C14/C17:
+//   (1) fileSize > 0 && 0 <= i < off/fileSize  ==>  (i+1)*fileSize <= off   (DiscardUpto: a removed chunk lies below the cut)
+//   (2) fileSize > 0 && off >= 0  ==>  (off/fileSize)*fileSize + off%fileSize == off   (Go spec: integer division identity)
+// (1): i+1 <= off/fileSize, so (i+1)*fileSize <= (off/fileSize)*fileSize <= off by (2) and off%fileSize >= 0.
+
+// SetOffset / ReadAt routing: chunk id and inner offset recompose the global offset, inner offset within the chunk.
+func verif_route(off int64, fileSize int) {
+	verifAssume(fileSize > 0 && off >= 0)
+	id := appendableID(off, fileSize)
+	in := off % int64(fileSize)
+	verifAssert("inner", 0 <= in && in < int64(fileSize))
+	verifAssert("id", 0 <= id && id <= off)
+}
+
+// One round of the Append loop (copy of multi_app.go:342-398 without the I/O): inner = currApp.Offset() of the active
+// chunk (0 <= inner by iface Appendable.Offset), rem = len(bs)-n > 0. The round hands d bytes to a chunk at inner
+// offset in2: d is positive (progress), never more than what is left, and an uncompressed chunk never grows past
+// fileSize; a chunk that is already full is left untouched and the next one starts at 0.
+func verif_append_step(fileSize int, inner int64, rem int) {
+	verifAssume(fileSize > 0 && inner >= 0 && rem > 0 && inner <= int64(fileSize))
+	available := fileSize - int(inner)
+	in2 := inner
+	rotated := false
+	if available <= 0 {
+		rotated = true
+		in2 = 0
+		available = fileSize
+	}
+	d := minInt(available, rem)
+	verifAssert("progress", 0 < d && d <= rem)
+	verifAssert("fits", in2+int64(d) <= int64(fileSize))
+	verifAssert("rotate", rotated == (inner == int64(fileSize)))
+}
